@@ -1107,6 +1107,9 @@ func c14Real(c *ctx, e *c14env, cells []int, seeds []uint64) {
 						sawPrompt = true
 						return
 					}
+					if bytes.Contains(out, []byte("(yes/no")) {
+						return // ssh asks the user about the host key: not established, nothing more will come
+					}
 					if pwPrompt.Match(out) && typed < 3 {
 						typed++
 						out = append(out, []byte("<typed>")...)
@@ -1121,7 +1124,7 @@ func c14Real(c *ctx, e *c14env, cells []int, seeds []uint64) {
 			}()
 			select {
 			case <-done:
-			case <-time.After(30 * time.Second):
+			case <-time.After(20 * time.Second):
 			}
 			tr.Close(true)
 			select {
@@ -1199,9 +1202,14 @@ func runC14(c *ctx) {
 	}
 	e := newC14Env(c)
 	defer os.RemoveAll(e.dir)
-	if d := c.ask([]string{"c14 default"}); d[0] != "1" {
-		res.Fail("oracle", "default", "NewSSHArgs no longer starts with strict host-key checking on (defaultSSHStrictKey)", "c14-default-not-strict")
+	// the default: NewSSHArgs() without options (implementation) vs newSSHArgs (model, from the generated constant)
+	if sa, err := transport.NewSSHArgs(); err != nil || !sa.StrictKey {
+		res.Fail("oracle", "default", fmt.Sprintf("transport.NewSSHArgs() without options: strict host-key checking is not on (StrictKey=%v err=%v)", sa != nil && sa.StrictKey, err), "c14-default-not-strict")
+	} else if d := c.ask([]string{"c14 default"}); d[0] != "1" {
+		res.Fail("correspondence", "default", "model default (generated defaultSSHStrictKey) is not strict but NewSSHArgs() is", "c14-default-differs")
 	}
+	res.Case("default", true)
+	res.InDomain++
 	if c.replay != "" {
 		f := strings.Fields(c.replay)
 		u := func(i int) uint64 { v, _ := strconv.ParseUint(f[i], 10, 64); return v }
